@@ -11,6 +11,7 @@ import Driver.C04
 import Driver.C05
 import Driver.C17
 import Driver.C16
+import Driver.C20
 /-
   kdriver: one request per line on stdin, `model<TAB>spec` per line on stdout.
   Anything it cannot parse is answered `bad-op<TAB>bad-op` (never a default value).
@@ -36,6 +37,7 @@ def dispatch (line : String) : String :=
       else if op.startsWith "b." || op.startsWith "st." then (Driver.C04.handle op args).orElse fun _ => Driver.C05.handle op args
       else if op = "prog" ∨ op = "prog.v" then Driver.C17.handle op args
       else if op.startsWith "cmp." || op.startsWith "eq." || op.startsWith "assertc." then Driver.C16.handle op args
+      else if op.startsWith "cstr." || op.startsWith "cat." then Driver.C20.handle op args
       else none
   match r with
   | some (m, s) => m ++ "\t" ++ s
